@@ -4,6 +4,22 @@ import Rs1090.Model.Decode.Timed
 namespace Rs1090.Driver.C07
 open Rs1090 Rs1090.Model Rs1090.Driver
 
+/-- the k-th reception record the harness attaches (`harness/src/c07.rs`, `sensor`): every optional member is `Some` in
+    one of the first two and `None` in the other -/
+def sensor (i : Nat) : Timed.SensorMeta :=
+  { systemTimestamp := jrat 3400000001 2,
+    gnssTimestamp := if i == 0 then some (jrat 25 2) else none,
+    nanoseconds := if i == 1 then some 123456789 else none,
+    rssi := if i == 0 then some (jrat (-25) 2) else none,
+    serial := 42 + i,
+    name := if i == 0 then some "rx\"1".toList else none }
+
+def cfg? : String → Option Timed.Config
+  | "u" => some .unset
+  | "0" => some (.set false)
+  | "1" => some (.set true)
+  | _ => none
+
 /-- same line protocol as C01: the canonical JSON (key order and multiplicity included) of the decoded message -/
 def handle : List String → Option String
   | ["dec", h] => (parseHex h).map fun bs => Message.showDecoded (Message.tryFrom bs)
@@ -11,6 +27,18 @@ def handle : List String → Option String
   | ["decb", h] => (parseHex h).map fun bs => Message.showDecoded (Message.fromBytes bs)
   /- the timed record of one reception at t = 1.5 s with no metadata -/
   | ["timed", h] => (parseHex h).map fun bs => Message.showDecoded (Timed.record (jrat 3 2) bs)
+  /- `timedc <u|0|1> <n|s> <k> <hex>`: the timed record under the serialisation configuration (never set /
+     `serialize_config(false)` / `serialize_config(true)`), with `decode_time` = `None` / `Some(0.000125)`, `k`
+     reception records, t = 1.5 s -/
+  | ["timedc", c, d, k, h] => do
+    let cfg ← cfg? c
+    let dt ← match d with
+      | "n" => some none
+      | "s" => some (some (jrat 1 8000))
+      | _ => none
+    let k ← k.toNat?
+    let bs ← parseHex h
+    pure (Message.showDecoded (Timed.recordCfg cfg (jrat 3 2) bs ((List.range k).map sensor) dt))
   | _ => none
 
 end Rs1090.Driver.C07
